@@ -106,7 +106,8 @@ class extract_visitor(NodeVisitor):
             eend = get_expr_end(node)
         name = node.target
         if isinstance(name, Attribute):
-            self.top.add_attr_assign(self.flow.scope, name, node.value)  # type: ignore[arg-type]  # TODO
+            if node.value:  # a bare annotation ('self.y: int') creates no attribute
+                self.top.add_attr_assign(self.flow.scope, name, node.value)
         elif isinstance(name, UNSUPPORTED_ASSIGMENTS):
             pass
         elif node.value:
